@@ -14,18 +14,27 @@ PROPS = {
                     "on the real loop-free function; loop-free symbolic execution over fully symbolic inputs is unbounded",
         trusted_base=[],
     ),
-    "C01": dict(functions=["pre_irrigation", "drainage", "infiltration", "capillary_rise", "groundwater_inflow"], level="proof",
+    "C01": dict(bounded=dict(module="water_monitors.py", args=["--property", "C01"]), functions=["pre_irrigation", "drainage", "infiltration", "capillary_rise", "groundwater_inflow", "soil_evaporation"], level="proof",
                 explanation="per-process mass contracts: loop invariants over the spec sum wsum (storage), closed with the lemma library", trusted_base=[]),
-    "C02": dict(functions=["rainfall_partition", "infiltration"], level="proof",
+    "C02": dict(bounded=dict(module="water_monitors.py", args=["--property", "C02"]), functions=["rainfall_partition", "infiltration"], level="proof",
                 explanation="partition identities and runoff bounds as postconditions of rainfall_partition and infiltration", trusted_base=[]),
-    "C03": dict(functions=["pre_irrigation", "drainage", "infiltration", "capillary_rise", "groundwater_inflow", "root_zone_water"], level="proof",
+    "C03": dict(bounded=dict(module="water_monitors.py", args=["--property", "C03"]), functions=["pre_irrigation", "drainage", "infiltration", "capillary_rise", "groundwater_inflow", "root_zone_water", "soil_evaporation", "evap_layer_water_content"], level="proof",
                 explanation="water_inv as inductive invariant of each process", trusted_base=[]),
-    "C04": dict(functions=["drainage", "irrigation", "infiltration", "capillary_rise", "groundwater_inflow", "pre_irrigation", "aeration_stress"], level="proof",
+    "C04": dict(bounded=dict(module="water_monitors.py", args=["--property", "C04"]), functions=["drainage", "irrigation", "infiltration", "capillary_rise", "groundwater_inflow", "pre_irrigation", "aeration_stress", "soil_evaporation"], level="proof",
                 explanation="sign / ordering postconditions", trusted_base=[]),
-    "C13": dict(functions=["irrigation", "root_zone_water", "pre_irrigation"], level="proof",
+    "C13": dict(bounded=dict(module="water_monitors.py", args=["--property", "C13"]), functions=["irrigation", "root_zone_water", "pre_irrigation"], level="proof",
                 explanation="per-strategy postconditions of irrigation(), callee contract of root_zone_water", trusted_base=[]),
-    "C19": dict(functions=["check_groundwater_table", "capillary_rise", "groundwater_inflow"], level="proof",
+    "C19": dict(bounded=dict(module="water_monitors.py", args=["--property", "C19"]), functions=["check_groundwater_table", "capillary_rise", "groundwater_inflow"], level="proof",
                 explanation="adjusted field capacity range / far table / saturation below the table / no table => zero fluxes", trusted_base=[]),
+    "C05": dict(functions=["growing_degree_day", "cc_development"], level="proof", safety=True,
+                bounded=dict(module="water_monitors.py", args=["--property", "C05"]),
+                explanation="E1: degree-day range and canopy-curve range clauses; the canopy/root/harvest-index envelopes are served by the BOUNDED monitors only so far"),
+    "C06": dict(functions=[], level="other", bounded=dict(module="water_monitors.py", args=["--property", "C06"]),
+                explanation="BOUNDED: yield algebra and summary rows monitored on real runs"),
+    "C12": dict(functions=["pre_irrigation", "drainage", "infiltration", "capillary_rise", "groundwater_inflow", "root_zone_water", "soil_evaporation",
+                           "evap_layer_water_content", "rainfall_partition", "irrigation", "check_groundwater_table"], level="proof", frame=True,
+                explanation="assigns (frame) obligations: every store of a process function hits a fresh array or a location its contract's assigns clause names; "
+                            "parameter arrays (soil profile, weather, management) are not writable"),
     "C07": dict(functions=[], level="other", bounded=dict(module="c07_schedule.py"),
                 explanation="BOUNDED: schedule produced by the pandas initialisers and whole-run calendar facts checked on an enumerated lattice of windows / planting dates / crops"),
     "C16": dict(functions=[], level="other", bounded=dict(module="c16_completion.py"),
